@@ -247,3 +247,69 @@ def spellings(lang, n):
     elif lang == 'nl':
         add(_nl(n))
     return out
+
+
+# ---------------------------------------------------------------------------------------------------------
+def _en_ord_word(w):
+    irregular = {'one': 'first', 'two': 'second', 'three': 'third', 'five': 'fifth', 'eight': 'eighth', 'nine': 'ninth', 'twelve': 'twelfth'}
+    if w in irregular:
+        return irregular[w]
+    if w.endswith('ty'):
+        return w[:-1] + 'ieth'
+    return w + 'th'
+
+
+def _fr_ord_word(w):
+    if w == 'un':
+        return 'unième'
+    if w == 'cinq':
+        return 'cinquième'
+    if w == 'neuf':
+        return 'neuvième'
+    if w in ('vingts', 'cents'):
+        w = w[:-1]
+    if w.endswith('e'):
+        w = w[:-1]
+    return w + 'ième'
+
+
+def ordinal_spellings(lang, n):
+    """Standard spelling(s) of the n-th ordinal (base / masculine singular form) as token lists; [] if not covered."""
+    if n < 1:
+        return []
+    if lang in ('de', 'nl', 'it'):
+        from .rules.lexical import spell_ordinal
+        if n >= 10 ** 6:
+            return []
+        return [[spell_ordinal(lang, n)]]
+    if lang == 'en':
+        out = []
+        for toks in (_en(n, british=True), _en(n, british=False)):
+            toks = list(toks)
+            last = toks[-1]
+            if '-' in last:
+                a, b = last.rsplit('-', 1)
+                toks[-1] = a + '-' + _en_ord_word(b)
+            else:
+                toks[-1] = _en_ord_word(last)
+            if toks not in out:
+                out.append(toks)
+        return out
+    if lang == 'fr':
+        if n == 1:
+            return [['premier']]
+        toks = list(_fr(n))
+        last = toks[-1]
+        if '-' in last:
+            a, b = last.rsplit('-', 1)
+            toks[-1] = a + '-' + _fr_ord_word(b)
+        else:
+            toks[-1] = _fr_ord_word(last)
+        return [toks]
+    return []
+
+
+def en_ordinal_marker(n):
+    if n % 100 in (11, 12, 13):
+        return 'th'
+    return {1: 'st', 2: 'nd', 3: 'rd'}.get(n % 10, 'th')
